@@ -24,7 +24,7 @@ LV = {"L": 0, "V": 1, "M": 2}
 
 def judge_c08(rec):
     st = rec.step
-    if st["k"] not in ("expand", "contract") or st.get("fault"):
+    if st["k"] not in ("expand", "contract") or st.get("fault") or st.get("dead_probe"):
         return []
     sig = step_sig(rec)
     sig["contraction"] = rec.contraction
@@ -104,7 +104,7 @@ def _is_pol_label(r):
 
 def judge_resize(rec):
     st = rec.step
-    if st["k"] != "resize" or st.get("fault"):
+    if st["k"] != "resize" or st.get("fault") or st.get("dead_probe"):
         return []
     f = st["targets"][0]
     n = int(st["n"])
@@ -158,7 +158,7 @@ def judge_resize(rec):
 def judge_truncation(rec):
     """C10 (b): the automatically chosen dimension keeps the result within the documented threshold"""
     st = rec.step
-    if st["k"] != "apply" or st.get("fault"):
+    if st["k"] != "apply" or st.get("fault") or st.get("dead_probe"):
         return []
     sp = st["op"]
     if sp["fam"] not in ("fock", "comp"):
@@ -236,7 +236,7 @@ def total_number_dist(rho, dims, axes):
 
 def judge_c11(rec):
     st = rec.step
-    if st["k"] != "apply" or st.get("fault"):
+    if st["k"] != "apply" or st.get("fault") or st.get("dead_probe"):
         return []
     sp = st["op"]
     isbs = sp["fam"] == "comp" and sp["type"] == "NonPolarizingBeamSplitter"
